@@ -34,7 +34,9 @@ impl Peers {
         ensures r.is_some() == self.s_has(*index), r.is_some() ==> state_inv(r.unwrap()) { unimplemented!() }
     #[verifier::external_body]
     pub fn update_last_state(&self, index: PeerIndex, last_state: LastState) -> (r: Result<(), Status>)
-        requires last_state.header.td_ok() { unimplemented!() }
+        requires last_state.header.td_ok()
+        // an Err carries an error status (PeerState::receive_last_state: unit peer_state), never OK / RequireRecheck
+        ensures r is Err ==> r->Err_0.code != StatusCode::OK && r->Err_0.code != StatusCode::RequireRecheck { unimplemented!() }
     #[verifier::external_body]
     pub fn update_prove_request(&self, index: PeerIndex, request: ProveRequest) -> (r: Result<(), Status>)
         requires request.last_state.header.td_ok() { unimplemented!() }
